@@ -87,7 +87,7 @@ Example C04_idents_nonvacuous :
   let body := branch_template {| Idents.declared := [9]; undeclared := []; locally_declared := []; locally_assigned := []; argument_declared := [];
                                  topleveldefs := []; closuredefs := [] |}
                 [TPage [1] [] [1]; TCode [2] [3]; TDef true 5 [4] [2] [TCheck [3; 4; 6] []]; TCheck [3; 5; 7; 9] []] in
-  to_write body = [7; 5; 2] /\ locally_declared body = [3; 1] /\ argument_declared body = [1] /\ topleveldefs body = [5].
+  to_write body = [5; 7; 2; 2] /\ locally_declared body = [3; 1] /\ argument_declared body = [1] /\ topleveldefs body = [5].
 Proof. vm_compute. repeat split. Qed.
 
 Example C04_nonvacuous :
